@@ -118,6 +118,12 @@ func runC20Read(c *Ctx) []Violation {
 			return n, true
 		}},
 	}
+	cyclic := c.T.Chance("c20r.cyclic", 1, 6)
+	if cyclic {
+		// a script result that has no JSON value (an object containing itself), cast with "type": the
+		// record must fail, nothing worse
+		all = append(all, declT{"d15_cyc", `{"type":"string",` + strings.TrimPrefix(jsDecl("(function(){ var o = {}; o.self = o; return o })()", false, false, jsArg("q", "E", "")), "{"), nil})
+	}
 	var decls []declT
 	for _, d := range all {
 		if c.T.Chance("c20r.decl", 3, 4) {
@@ -169,8 +175,20 @@ func runC20Read(c *Ctx) []Violation {
 	if len(tr.Entries) != len(recs)+1 {
 		return fail(fmt.Sprintf("%d results for %d records", len(tr.Entries), len(recs)))
 	}
+	hasCyc := false
+	for _, d := range decls {
+		if d.key == "d15_cyc" {
+			hasCyc = true
+		}
+	}
 	for i, r := range recs {
 		e := tr.Entries[i]
+		if hasCyc {
+			if e.Class != run.ClsContinuable {
+				return fail(fmt.Sprintf("record #%d: a script result that contains itself must fail the record, got %s: %s", i+1, e.Class, clipS(e.Out+e.Err, 200)))
+			}
+			continue
+		}
 		if e.Class != run.ClsRecord {
 			return fail(fmt.Sprintf("record #%d (%+v): expected a record, got %s: %s", i+1, r, e.Class, e.Err+e.Shape))
 		}
